@@ -18,6 +18,9 @@ ASSUMPTIONS = [
     "Migen simulator semantics",
     "W = L_refresh + nports*(depth+2)*(tRP+tRCD+max(tRAS,tWR+WL)+CLsys+4) + read_time + write_time + read_latency + tWTR + WL",
     "liveness is decided only in this bounded form; the adversarial stream is longer than 3*W so an unbounded wait exceeds it",
+    "W adds the direction windows once: it presumes the victim's own window drains its bank queue.  In the cases with a "
+    "300-cycle window the victim therefore offers one command at a time; half of them run with refresh off, the other half "
+    "with a refresh interval shorter than the window (open finding C05-direction-window-restarts-at-refresh)",
 ]
 MIN_NONTRIVIAL = {"quick": 6, "thorough": 30}
 CLASSES = ["hammer-same-row", "writes-vs-reader", "hammer-alt-rows", "reads-vs-writer", "yielding", "many-ports-one-bank",
